@@ -35,7 +35,8 @@ Base == [query |-> "Query", mutation |-> "", subscription |-> "",
     \* an interface with a deprecated field (introspection must filter it like an object's)
     [k |-> "interface", name |-> "Node", fields |-> << Fld("id", Named("ID"), <<>>), [Fld("old", Named("Int"), <<>>) EXCEPT !.dep = "gone"] >>],
     [k |-> "object", name |-> "A", ifaces |-> <<"Node">>, fields |-> << Fld("id", Named("ID"), <<>>), Fld("s", Named("String"), <<>>), Fld("old", Named("Int"), <<>>) >>],
-    [k |-> "object", name |-> "B", ifaces |-> <<>>, fields |-> << Fld("id", Named("ID"), <<>>), Fld("old", Named("Int"), <<>>) >>],
+    \* B.old is deprecated with an EMPTY reason ("EMPTY" is expanded by the harness to the empty string): still deprecated
+    [k |-> "object", name |-> "B", ifaces |-> <<>>, fields |-> << Fld("id", Named("ID"), <<>>), [Fld("old", Named("Int"), <<>>) EXCEPT !.dep = "EMPTY"] >>],
     [k |-> "union", name |-> "U", members |-> <<"A", "B">>],
     \* a second union sharing both members (per-union bookkeeping must not leak between unions), and a user type whose name
     \* starts with ONE underscore (only two are reserved)
